@@ -16,7 +16,7 @@ from .core import VERIF, load_known, known_match
 PYTHON = "/venv/bin/python"
 DEPS = os.path.join(VERIF, ".deps")
 WHEELS = "/opt/veriftools/wheels"
-NEEDED = ["hypothesis", "jsonschema", "sympy"]
+NEEDED = ["hypothesis", "jsonschema", "sympy", "atheris"]
 NCPU = int(os.environ.get("PCDVERIF_JOBS", "16"))
 
 
@@ -298,6 +298,9 @@ def check_property(pid, tier, seed, only=None):
     }
     if not only and not os.environ.get("PCDVERIF_NOEVIDENCE"):
         write_evidence(pid, ev)
+    elif os.environ.get("PCDVERIF_DUMP_EVIDENCE"):
+        with open(os.environ["PCDVERIF_DUMP_EVIDENCE"], "w") as f:
+            json.dump(ev, f, indent=1)
     for name, s, err in harness_errors[:5]:
         log("HARNESS ERROR in %s shard %s:\n%s" % (name, s, err))
     for name, v, path in uniq:
